@@ -43,7 +43,7 @@ def mandatory_bins(tier):
     b += ["key_trailing_zero_%d" % z for z in (1, 2, 3, 15)]
     b += ["crc_lo_00:cust", "crc_hi_00:cust", "crc_both_00:cust", "crc_lo_00:update", "crc_hi_00:update", "crc_both_00:update",
           "decryptors_all", "decryptors_single", "decryptors_partial", "pass_through_block", "encrypted_config_component", "customer_key_present", "customer_key_absent",
-          "version_00", "version_ff", "version_80", "code_all_zero", "code_ends_00", "config_blob_trailing_zero_padding", "key_all_zero", "ecc_distractor_decryptors_before_the_matching_one", "ecc_distractor_encryptors_on_write", "second_write_after_replacing_a_block_of_the_same_kind", "foreign_blocks_of_unknown_kind", "session_key_contains_customer_key", "file_name_instead_of_stream", "read_with_mac_check_off"]
+          "version_00", "version_ff", "version_80", "code_all_zero", "code_ends_00", "config_blob_trailing_zero_padding", "key_all_zero", "ecc_distractor_decryptors_before_the_matching_one", "ecc_distractor_encryptors_on_write", "second_write_after_replacing_a_block_of_the_same_kind", "foreign_blocks_of_unknown_kind", "session_key_contains_customer_key", "file_name_instead_of_stream", "read_with_mac_check_off", "update_block_attributes_reassigned", "stream_positioned_after_other_content"]
     return b
 
 
@@ -157,8 +157,17 @@ def _check_reads(ns, ctx, B, specs, subsets, key, text, path, has_ecc, distracto
         cm = not (len(subset) + key[2]) % 3 == 0
         if not cm:
             ctx.bin("read_with_mac_check_off")
+        src = path if path else io.StringIO(text)
+        if not path and (len(subset) + key[4]) % 4 == 1:
+            # the BEC2 text does not start at offset 0 of the stream it is read from
+            src = io.StringIO()
+            src.write("Other: content earlier in the same stream\n\nAB12\n")
+            start = src.tell()
+            src.write(text)
+            src.seek(start)
+            ctx.bin("stream_positioned_after_other_content")
         try:
-            back = B.Bec2File.read_file(path if path else io.StringIO(text), renc, cm)
+            back = B.Bec2File.read_file(src, renc, cm)
             ctx.mon("read_file")
         except Exception as e:
             kinds = "+".join(specs[i]["kind"] for i in sorted(subset))
@@ -195,7 +204,14 @@ def _second_write(ns, ctx, B, f, specs, case, key, wenc, rp):
         specs2[i]["version"] = (specs[i]["version"] + 0x81) % 256
         if len(case.comps) % 2:
             specs2[i]["code"] = bytes((b ^ 0x55) for b in specs[i]["code"])
-        f.add_auth_block(B.UpdateAuthBlock(specs2[i]["code"], specs2[i]["version"]))
+        if len(case.comps) % 3 == 2 and hasattr(f.auth_blocks.get(2), "version"):
+            # the block object the file already holds is edited through its public attributes instead of being replaced
+            blk = f.auth_blocks[2]
+            blk.version = specs2[i]["version"]
+            blk.config_security_code = specs2[i]["code"]
+            ctx.bin("update_block_attributes_reassigned")
+        else:
+            f.add_auth_block(B.UpdateAuthBlock(specs2[i]["code"], specs2[i]["version"]))
         ctx.ev()
         ctx.bin("second_write_after_replacing_a_block_of_the_same_kind")
         try:
